@@ -67,6 +67,44 @@ fn named_circuits() -> Vec<Item> {
             Ok(())
         }),
     );
+    // selectors equal to entries of the built-in dictionary that the compressor
+    // shares with the decompressor: the Hades MDS matrix is the Cauchy matrix
+    // 1/(i+j+5), so its 25 entries hold only 9 distinct values 1/5 .. 1/13
+    push(
+        "selectors-equal-hades-mds-entries",
+        Prog::new(|c| {
+            let a = c.append_witness(fe(3));
+            let b = c.append_witness(fe(4));
+            for i in 0..5u64 {
+                for j in 0..5u64 {
+                    let m = inv(fe(i + j + 5));
+                    // every entry on a different selector position
+                    let s = match (i + j) % 3 {
+                        0 => Constraint::new().left(m).right(1),
+                        1 => Constraint::new().left(1).right(m),
+                        _ => Constraint::new().left(1).right(1).constant(m),
+                    };
+                    c.gate_add(s.a(a).b(b));
+                }
+            }
+            Ok(())
+        }),
+    );
+    push(
+        "selectors-small-rationals-and-powers",
+        Prog::new(|c| {
+            // values likely to sit in (or next to) any built-in constant table
+            let a = c.append_witness(fe(3));
+            let b = c.append_witness(fe(4));
+            for k in 2..=16u64 {
+                c.gate_add(Constraint::new().left(inv(fe(k))).right(-inv(fe(k))).constant(fe(k)).a(a).b(b));
+            }
+            for k in [2usize, 8, 64, 128, 254] {
+                c.gate_add(Constraint::new().left(pow2(k)).right(pow2(k) - one()).a(a).b(b));
+            }
+            Ok(())
+        }),
+    );
     push(
         "zero-valued-public-inputs",
         Prog::new(|c| {
